@@ -137,9 +137,12 @@ def load_known() -> list[dict]:
         return json.load(f)
 
 
-def replay_path(prop: str, key: str) -> str:
+def replay_path(prop: str, key: str, root: str | None = None) -> str:
     h = hashlib.sha1(key.encode()).hexdigest()[:12]
-    d = os.path.join(VERIF_DIR, "out", prop)
+    base = VERIF_DIR
+    if os.environ.get("YAWSA_SELFTEST_CHILD") and root and os.path.abspath(root) != "/repo":
+        base = root  # self-validation runs keep their replay files inside their scratch copy
+    d = os.path.join(base, "out", prop)
     os.makedirs(d, exist_ok=True)
     return os.path.join(d, f"{h}.json")
 
@@ -153,7 +156,7 @@ def emit(res: Result, *, wall_s: float, seed: int, explanation: str, error: str 
     for f in old:
         print(f"KNOWN-FINDING: property={res.prop} {f.rule} {f.function}: {known[f.key].get('what', f.message)}")
     for f in new:
-        path = replay_path(res.prop, f.key)
+        path = replay_path(res.prop, f.key, root)
         j = f.to_json()
         j["root"] = root
         with open(path, "w", encoding="utf-8") as fh:
